@@ -41,7 +41,9 @@ META = {
         "gets the value 'offset of its own section'. structural faults: every dictionary entry, array element, stream-dictionary "
         "entry, top-level object and trailer entry x {null,int,real,name,string,array,dict,boolean,ref->self,ref->missing,"
         "ref->ancestor(cycle), empty array, empty dict, 2**70, 2**63-1, 10**400, a 400-digit real, -1} (the representative of the value's own type skipped) plus key removal; payload faults: every stream truncated at "
-        "every length and emptied (thorough: one byte replaced at every position by 00,FF,'<','('); file truncated at every byte. "
+        "every length and emptied (thorough: one byte replaced at every position by 00,FF,'<','('); file truncated at every byte; content-stream faults on the graphics seed, whose "
+        "page content is kept as a list of 117 operator invocations covering 71 distinct operators: every operand x {the 16 wrong-type/extreme values, 0, nested array, mixed array, removed, duplicated}, every operator dropped "
+        "(its operands stay on the stack), every operator repeated without operands, every operator replaced by each of the 76 other keywords (all operators of the seed, d0, d1, R, obj, endstream, an unknown word). "
         "One fault per execution, each run through the listed entry points under a counted work budget (sys.monitoring "
         "PY_START+JUMP events <= 50 x the undamaged seed's count + 100000 + 2000 x file length). non-trivial = the damaged file differs from the seed "
         "and the outcome was judged; a 'scaling' family runs valid documents of 16/64/256 pages (classic table; everything in one "
@@ -50,8 +52,8 @@ META = {
         "transitions = fault applications, traces = executions of an entry point on a damaged document, each judged."
     ),
     "bound": {
-        "quick": "structural faults on all 11 seeds x {extract_text, extract_text_to_fp(xml)}; payload truncation at every length on 7 seeds (xref-stream, TrueType and filtered-content payloads also 00/FF at every position); file truncation at every byte of 2 seeds",
-        "thorough": "structural + payload (truncate, empty, 4 byte values at every position) + every-byte truncation on all 11 seeds x 3 entry points",
+        "quick": "structural faults on all 11 seeds x {extract_text, extract_text_to_fp(xml)}; payload truncation at every length on 7 seeds (xref-stream, TrueType and filtered-content payloads also 00/FF at every position); file truncation at every byte of 2 seeds; all 12684 content-stream operator/operand faults",
+        "thorough": "structural + payload (truncate, empty, 4 byte values at every position) + every-byte truncation + content-stream faults on all 11 seeds x 3 entry points",
     },
     "assumptions": [
         "single faults only; fault values are one representative per PDF type",
@@ -73,6 +75,56 @@ def kind_value(kind: str, num: int, ancestor: int) -> Any:
         "boolean": True, "refself": Ref(num), "refmissing": Ref(9999), "refancestor": Ref(ancestor),
         "emptyarray": [], "emptydict": {}, "bigint": 2**70, "negint": -1, "maxint": 2**63 - 1, "hugeint": 10**400, "hugereal": Raw(b"9" * 400 + b".5"),
     }[kind]
+
+
+# content-stream faults (seeds whose kw carries "ops": the operator list of one content stream)
+OPKINDS = ["null", "int", "real", "name", "string", "array", "dict", "boolean", "refself", "emptyarray", "emptydict", "bigint", "negint", "maxint",
+           "hugeint", "hugereal", "zero", "nested", "mixed", "remove", "dup"]
+OP_EXTRA = {"zero": 0, "nested": [[1, [2]], {"a": [b"s"]}], "mixed": [b"a", N("b"), None, 1.5, [], {}]}
+EXTRA_KEYWORDS = ["d0", "d1", "R", "obj", "endstream", "zz"]
+
+
+def op_faults(name: str) -> List[Tuple]:
+    doc, kw = S.SEEDS[name]()
+    if "ops" not in kw:
+        return []
+    ops = S.GFX_OPS
+    out: List[Tuple] = []
+    for i, (operands, op, raw) in enumerate(ops):
+        for j, v in enumerate(operands):
+            t = type_of(v)
+            for kind in OPKINDS:
+                if kind != t and not (kind == "zero" and v == 0):
+                    out.append(("operand", i, j, kind))
+        out.append(("opdrop", i))
+        out.append(("opdup", i))
+    words = sorted({op for _, op, _ in ops}) + EXTRA_KEYWORDS
+    for i, (operands, op, raw) in enumerate(ops):
+        for w in words:
+            if w != op:
+                out.append(("opreplace", i, w))
+    return out
+
+
+def damaged_ops(fault: Tuple, num: int) -> bytes:
+    ops = [(list(a), op, raw) for a, op, raw in S.GFX_OPS]
+    i = fault[1]
+    operands, op, raw = ops[i]
+    if fault[0] == "operand":
+        _, _, j, kind = fault
+        if kind == "remove":
+            del operands[j]
+        elif kind == "dup":
+            operands.insert(j, operands[j])
+        else:
+            operands[j] = OP_EXTRA[kind] if kind in OP_EXTRA else kind_value(kind, num, num)
+    elif fault[0] == "opdrop":
+        ops[i] = (operands, "", raw)
+    elif fault[0] == "opdup":
+        ops.insert(i + 1, ([], op, b""))
+    elif fault[0] == "opreplace":
+        ops[i] = (operands, fault[2], raw)
+    return S.ser_ops(ops)
 
 
 def type_of(v: Any) -> str:
@@ -242,6 +294,8 @@ def materialise(name: str, fault: Tuple) -> bytes:
             st.data = st.data[:pos]
         else:
             st.data = st.data[:pos] + bytes([val]) + st.data[pos + 1:]
+    elif fault[0] in ("operand", "opdrop", "opdup", "opreplace"):
+        doc.objs[kw["ops"]][1].data = damaged_ops(fault, kw["ops"])
     mutate = None
     if fault[0] == "gen":
         _, which, path, kind = fault
@@ -428,6 +482,10 @@ def shards(tier):
         fs = structural_faults(name)
         for i in range(0, len(fs), 120):
             out.append(("struct", name, i, min(i + 120, len(fs))))
+    for name in t["seeds"]:
+        fs = op_faults(name)
+        for i in range(0, len(fs), 200):
+            out.append(("ops", name, i, min(i + 200, len(fs))))
     for name in t["payload_seeds"]:
         doc, kw = S.SEEDS[name]()
         for num in sorted(doc.objs):
@@ -456,6 +514,12 @@ def run_shard(shard, tier, st):
             judge(st, name, f, data, t["entries"], seed_bytes)
         if shard[2] == 0:
             st.sample({"seed": name, "fault": fs[3], "bytes": len(seed_bytes)})
+    elif shard[0] == "ops":
+        fs = op_faults(name)[shard[2]:shard[3]]
+        for f in fs:
+            judge(st, name, f, materialise(name, f), t["entries"], seed_bytes)
+        if shard[2] == 0:
+            st.sample({"seed": name, "fault": fs[5], "operators": len(S.GFX_OPS)})
     elif shard[0] == "payload":
         num = shard[2]
         doc, kw = S.SEEDS[name]()
